@@ -28,34 +28,60 @@ structure GuardRow where
   fail  : FailRet
   deriving Repr, DecidableEq, BEq
 
-/-- per-case guards of `protocol.Read`, in source order -/
+/-- per-case guards of `protocol.Read`, sorted by (id, sub-id) (source order is irrelevant) -/
 def expectedGuards : List GuardRow := [
-  ⟨0, none, .ne 1, .errParse⟩, ⟨1, none, .ne 1, .errParse⟩,
-  ⟨2, none, .ne 1, .errParse⟩, ⟨3, none, .ne 1, .errParse⟩,
-  ⟨4, none, .ne 5, .errParse⟩, ⟨5, none, .lt 1, .errParse⟩,
-  ⟨6, none, .ne 13, .errParse⟩, ⟨8, none, .ne 13, .errParse⟩, ⟨16, none, .ne 13, .errParse⟩,
-  ⟨7, none, .lt 9, .errParse⟩, ⟨9, none, .ne 3, .errParse⟩,
-  ⟨13, none, .ne 5, .errParse⟩, ⟨17, none, .ne 5, .errParse⟩,
-  ⟨14, none, .ne 1, .errParse⟩, ⟨15, none, .ne 1, .errParse⟩,
-  ⟨20, none, .lt 2, .errParse⟩,
-  ⟨20, some 0, .none, .other⟩, ⟨20, some 1, .none, .other⟩, ⟨20, some 2, .none, .other⟩,
-  ⟨20, some 3, .subNe 4, .errParse⟩, ⟨20, some 4, .subNe 1, .errParse⟩ ]
+  ⟨0, none, (.ne 1), .errParse⟩,
+  ⟨1, none, (.ne 1), .errParse⟩,
+  ⟨2, none, (.ne 1), .errParse⟩,
+  ⟨3, none, (.ne 1), .errParse⟩,
+  ⟨4, none, (.ne 5), .errParse⟩,
+  ⟨5, none, (.lt 1), .errParse⟩,
+  ⟨6, none, (.ne 13), .errParse⟩,
+  ⟨7, none, (.lt 9), .errParse⟩,
+  ⟨8, none, (.ne 13), .errParse⟩,
+  ⟨9, none, (.ne 3), .errParse⟩,
+  ⟨13, none, (.ne 5), .errParse⟩,
+  ⟨14, none, (.ne 1), .errParse⟩,
+  ⟨15, none, (.ne 1), .errParse⟩,
+  ⟨16, none, (.ne 13), .errParse⟩,
+  ⟨17, none, (.ne 5), .errParse⟩,
+  ⟨20, none, (.lt 2), .errParse⟩,
+  ⟨20, some 0, .none, .other⟩,
+  ⟨20, some 1, .none, .other⟩,
+  ⟨20, some 2, .none, .other⟩,
+  ⟨20, some 3, (.subNe 4), .errParse⟩,
+  ⟨20, some 4, (.subNe 1), .errParse⟩ ]
 
 def expectedFrameCap : Nat := 1048576
 
 /-- (message constructor name, wire id, fixed payload arity in 32-bit words or none) of
-    `protocol.Write`, in source order -/
+    `protocol.Write`, sorted by name -/
 structure WriterRow where
   name : String
   id   : Nat
   deriving Repr, DecidableEq, BEq
 
 def expectedWriter : List WriterRow := [
-  ⟨"KeepAlive", 0⟩, ⟨"Choke", 0⟩, ⟨"Unchoke", 1⟩, ⟨"Interested", 2⟩, ⟨"NotInterested", 3⟩,
-  ⟨"Have", 4⟩, ⟨"Bitfield", 5⟩, ⟨"Request", 6⟩, ⟨"Piece", 7⟩, ⟨"Cancel", 8⟩, ⟨"Port", 9⟩,
-  ⟨"SuggestPiece", 13⟩, ⟨"HaveAll", 14⟩, ⟨"HaveNone", 15⟩, ⟨"RejectRequest", 16⟩,
-  ⟨"AllowedFast", 17⟩, ⟨"Extended0", 20⟩, ⟨"ExtendedMetadata", 20⟩, ⟨"ExtendedPex", 20⟩,
-  ⟨"ExtendedDontHave", 20⟩ ]
+  ⟨"AllowedFast", 17⟩,
+  ⟨"Bitfield", 5⟩,
+  ⟨"Cancel", 8⟩,
+  ⟨"Choke", 0⟩,
+  ⟨"Extended0", 20⟩,
+  ⟨"ExtendedDontHave", 20⟩,
+  ⟨"ExtendedMetadata", 20⟩,
+  ⟨"ExtendedPex", 20⟩,
+  ⟨"Have", 4⟩,
+  ⟨"HaveAll", 14⟩,
+  ⟨"HaveNone", 15⟩,
+  ⟨"Interested", 2⟩,
+  ⟨"KeepAlive", 0⟩,
+  ⟨"NotInterested", 3⟩,
+  ⟨"Piece", 7⟩,
+  ⟨"Port", 9⟩,
+  ⟨"RejectRequest", 16⟩,
+  ⟨"Request", 6⟩,
+  ⟨"SuggestPiece", 13⟩,
+  ⟨"Unchoke", 1⟩ ]
 
 def findGuard (t : List GuardRow) (id : Nat) (sub : Option Nat) : Option GuardRow :=
   t.find? (fun r => r.id == id && r.sub == sub)
